@@ -29,7 +29,7 @@ func init() {
 					"After EVERY call: Len, IsEmpty, Min, Max, (every fifth step first a scan abandoned half-way: its loop body panics and the caller recovers,) full Inorder (with stored tags), Inorder early stop, Get for all/sampled keys, InorderAfter for sampled keys with early stop; range functions returned by InorderAfter are put aside and ranged only after later Add/Remove/Clear calls (they must then describe the tree as it is at that moment). " +
 					"beta: quick uses {0,1,2,50,100,250,500,750,999,1000}; thorough additionally sweeps every beta in 0..1000. " +
 					"distinct = hash of (beta, div, every op with its key); non-trivial = the history contained a scapegoat rebuild on insert, a delete-side whole rebuild, or a two-child removal (detected from the tree shape read through Root/Left/Right)",
-				Required:     []string{"insert_rebuilds", "delete_rebuilds", "two_child_removals", "new_with_duplicates", "clones", "replace_existing", "steps", "histories_with_wide_comparator", "rebuilds_at_exact_size", "clone_worker_rounds", "sparse_observation_histories", "nested_scan_cases", "abandoned_scans", "kept_range_functions_ranged_later", "shared_reader_rounds", "deep_then_shrink_cases"},
+				Required:     []string{"insert_rebuilds", "delete_rebuilds", "two_child_removals", "new_with_duplicates", "clones", "replace_existing", "steps", "histories_with_wide_comparator", "rebuilds_at_exact_size", "clone_worker_rounds", "sparse_observation_histories", "nested_scan_cases", "abandoned_scans", "kept_range_functions_ranged_later", "shared_reader_rounds", "deep_then_shrink_cases", "bulk_new_with_stateful_comparator"},
 				Assumptions:  []string{"reference model: sorted slice with textbook set semantics", "tree shape for reach counters is read through stree.Cursor (checked separately by C03)"},
 				CoverPkgs:    []string{"github.com/creachadair/mds/stree"},
 				CoverAnchors: []string{"stree/stree.go", "stree/node.go"},
@@ -745,6 +745,76 @@ func runC01(c *fw.Ctx) {
 				c.FailKind("panic", map[string]any{"phase": "deep one-sided tree, then shrunk", "beta": b, "keys_inserted": n}, "panic: %v\n%s", pv, stack)
 			}
 		}
+	}
+	if c.Block < 6 && c.Begin(1<<22+2000+c.Block) {
+		// bulk New of 2^17-1 .. 300 000 keys with duplicates, under a comparator
+		// that keeps working storage of its own: a correct total order as long as
+		// it is called by one goroutine at a time (nothing says otherwise for a
+		// Tree, which is not safe for concurrent use itself)
+		n := []int{131071, 131072, 131073, 200000, 300000, 65537}[c.Block]
+		var sa, sb [4]int
+		entered, overlapped := false, false
+		cmpScratch := func(a, b Elem) int {
+			if entered {
+				overlapped = true
+			}
+			entered = true
+			sa[0], sa[1] = a.Key, a.Key>>3
+			for i := 0; i < 40; i++ {
+				sa[2] += i
+			}
+			sb[0], sb[1] = b.Key, b.Key>>3
+			r := 0
+			switch {
+			case sa[0] < sb[0]:
+				r = -1
+			case sa[0] > sb[0]:
+				r = 1
+			}
+			entered = false
+			return r
+		}
+		r := c.Rng()
+		keys := make([]Elem, 0, n+n/8)
+		for _, p := range r.Perm(n) {
+			keys = append(keys, Elem{Key: p * 2, Tag: p + 1})
+			if p%8 == 0 {
+				keys = append(keys, Elem{Key: p * 2, Tag: -p - 1})
+			}
+		}
+		ok, pv, stack := fw.Try(func() {
+			t := stree.New(250, cmpScratch, keys...)
+			data := map[string]any{"keys_given": len(keys), "distinct": n, "comparator": "natural order computed in working storage owned by the comparator (not re-entrant)"}
+			if t.Len() != n {
+				c.Fail(data, "New: Len=%d want %d (comparator entered while already running: %v)", t.Len(), n, overlapped)
+				return
+			}
+			i := 0
+			good := true
+			t.Inorder(func(e Elem) bool {
+				if e.Key != 2*i || (e.Tag != i+1 && e.Tag != -i-1) {
+					good = false
+					return false
+				}
+				i++
+				return true
+			})
+			if !good || i != n {
+				c.Fail(data, "New: Inorder wrong at position %d of %d (comparator entered while already running: %v)", i, n, overlapped)
+				return
+			}
+			for probe := 0; probe < 2000; probe++ {
+				k := r.IntN(n) * 2
+				if _, ok := t.Get(Elem{Key: k}); !ok {
+					c.Fail(data, "New: Get(%d) misses a key that was given (comparator entered while already running: %v)", k, overlapped)
+					return
+				}
+			}
+		})
+		if !ok {
+			c.FailKind("panic", map[string]any{"phase": "bulk New with a non-re-entrant comparator", "keys": n}, "panic: %v\n%s", pv, stack)
+		}
+		c.Add("bulk_new_with_stateful_comparator", 1)
 	}
 	c01rebuildSweep(c, 1<<20)
 	for k := 0; k < c.Pick(6, 60); k++ {
